@@ -14,6 +14,7 @@ import SkNet.Lemmas.KernelsVote
 import SkNet.Lemmas.TerminateLouvainOuter
 import SkNet.Lemmas.TerminatePush
 import SkNet.Lemmas.TerminateHierarchy
+import SkNet.Lemmas.TerminateLeiden
 
 namespace SkNet.C17
 open SkNet SkNet.IR
@@ -331,5 +332,27 @@ example :
     KVote.voteUpdate? c [7, 9, -1, -1, -1, -1] [0, 1, 2, 3, 4, 5]
       = .ok [9, 9, -1, -1, -1, -1] := by
   refine ⟨by decide +kernel, by decide +kernel⟩
+
+/-! ## 7. the refinement of Leiden -/
+
+/-- **refine_core_terminates.**  The `while increase` loop of `optimize_refine_core` (model
+    `SkNet.Modularity.refineCore`, exact arithmetic) terminates for **every** sequence of values of `rand()`:
+    a node only moves to a refined cluster whose `delta_local` is strictly positive; the refined partition refines
+    the clusters, so the neighbour loop restricted to the node's own cluster sees the whole link towards each
+    candidate and `delta_local` is exactly the change of `Q` of the refined partition; a pass that sets `increase`
+    strictly raises `Q`, no refined label vector is met twice: `K^n + 1` passes suffice. -/
+theorem refine_core_terminates (g : Modularity.Graph Rat) (hg : Modularity.GraphOK g) (res : Rat) (K : Nat)
+    (labels : List Nat) (st : Modularity.RSt Rat) (hinv : Terminate.RInv g K labels st) (rands : List Nat)
+    (fuel : Nat) (hf : K ^ g.n + 1 ≤ fuel) : Modularity.refineCore g res labels fuel st rands ≠ none :=
+  Terminate.refineCore_terminates g hg res K labels st hinv rands fuel hf
+
+/-- `Leiden._optimize_refine` (singletons, node weights, zero scratch) terminates on every well-formed level -/
+theorem leiden_refine_terminates (lv : Modularity.Level) (hlv : Modularity.LevelOK lv) (res : Rat)
+    (labels : List Nat) (rands : List Nat) (fuel : Nat) (hf : lv.n ^ lv.n + 1 ≤ fuel) :
+    Modularity.leidenRefine lv res fuel labels rands ≠ none :=
+  Terminate.leidenRefine_terminates lv hlv res labels rands fuel hf
+
+/-- non-vacuity: the pair level, both nodes in one cluster: the refinement joins them whatever `rand()` says -/
+example : (Modularity.leidenRefine pairLevel 1 5 [0, 0] [7, 3]).map (·.1) = some [1, 1] := by decide +kernel
 
 end SkNet.C17
